@@ -62,6 +62,17 @@ def std_raises(extra=None, benign_extra=()):
     return raises
 
 
+def quiet_logging_raises(node_ast, kind):
+    """default may-raise model, except that logging/print calls are taken as non-raising (assumption: loggers do not fail)"""
+    if node_ast is None or isinstance(node_ast, ast.Raise) or kind in ("with_enter", "for", "except", "with_exit"):
+        return None
+    cs = A.calls(node_ast)
+    if cs and all((A.call_name(c) or "").split(".")[-2:-1] in (["logger"],) or A.call_name(c) == "print" for c in cs):
+        if isinstance(node_ast, ast.Expr):
+            return set()
+    return None
+
+
 def _strip_calls(node_ast):
     """does the node contain a possibly-raising construct outside its calls' own evaluation?"""
     for n in A.walk(node_ast):
